@@ -34,7 +34,8 @@ CLAIMED = {
               '(attribution, whole lines, no debugger text, real stdout complete).' 
               'Also 3–6 real threads writing partial lines at the same time under a 1 µs thread-switch interval through the real trace machinery: what each thread wrote is what is reported for its trace.' 
               'Also texts with CR, VT, FF, FS…US, NEL, LS, PS, and two runs of one object (text per run and trace).' 
-              ' Also executor threads reused by sequential to_thread / run_in_executor / call_soon / copy_context().run calls, with lines assembled across the hand-over; with thread tracing off nothing a pool thread writes may be reported.'),
+              ' Also executor threads reused by sequential to_thread / run_in_executor / call_soon / copy_context().run calls, with lines assembled across the hand-over; with thread tracing off nothing a pool thread writes may be reported.' 
+              ' Also threads that outlive the script and write full and partial lines after its last statement, in-process and in a real child.'),
         design='§6 C13, §5 model K',
         note=COMMON_NOTE + 'Which trace number is current at a write is model D1 (C06); absence of Pdb text in reported output is '
              'checked on real-child runs only (Pdb writes to its private StdInOut stream).',
@@ -52,7 +53,8 @@ CLAIMED = {
               'compared per hook call and per key with the compiled model), eager and lazy subscribers attached at random points, and '
               'recorded real-child runs.' 
               'Also end to end through the real run session: a simulated child emits a well-formed stream faster than a slow plugin lets the relay deliver it, then exits or is killed with traces and prompts open; at finished the active set is empty, prompt notices match prompt starts, subscribers have terminated (random schedules).' 
-              'Trace numbers start from arbitrary bases; subscribers attach between the start of a trace and its first prompt.'),
+              'Trace numbers start from arbitrary bases; subscribers attach between the start of a trace and its first prompt.' 
+              ' Also a hook busy for seconds while the run ends or is killed: run info, trace info and the active ids are still closed out.'),
         design='§6 C11, §5 model C',
         note=COMMON_NOTE + 'Well-formedness of the child\'s stream is property C09; F2 atomicity of hook implementations is assumed and '
              'exercised. Clauses "prompt open then closed with its command" and "notices match starts" are checked by correspondence + oracle only.',
@@ -68,7 +70,8 @@ CLAIMED = {
               'DFS, seeded random schedules of larger ones) with instrumented sources, and the exact observed label sequence must be accepted '
               'by the compiled model and end in a terminal state; plus an independent oracle.' 
               'Also items of any kind (None, falsy values, exceptions as values), an exhausted to_aiter staying exhausted, consumers sharing one wrapper.' 
-              ' Also a to_aiter request cancelled 0–3 loop steps after it was made, iteration continued: nothing goes missing (without a thread the wrapper never suspends).'),
+              ' Also a to_aiter request cancelled 0–3 loop steps after it was made, iteration continued: nothing goes missing (without a thread the wrapper never suspends).' 
+              ' Also to_aiter(thread=True) sources whose next() blocks until the consumer has received an item of another source (ping-pong, request-reply, one slow source).'),
         design='§6 C19, §5 model J',
         note=COMMON_NOTE + 'Termination is shown as absence of deadlock under the assumption that pending source tasks eventually complete and the '
              'consumer keeps iterating; asyncio.wait/ensure_future semantics are modelled.',
@@ -85,7 +88,8 @@ CLAIMED = {
               'all decoy streams of bounded length and seeded random op sequences (phase-synchronised), plus real-child runs with five decoys '
               'around every genuine answer.' 
               'Also concurrent programs through the real trace machinery in-process with one thread\'s first prompt withheld, every genuine answer surrounded by decoys incl. this prompt\'s number addressed to every other live trace; the command recorded when a prompt closes must be the one addressed to it.' 
-              'Also two runs of one object, the first ended by kill/terminate/interrupt at a prompt; a scenario in which commands get stuck is reported with its operation sequence.'),
+              'Also two runs of one object, the first ended by kill/terminate/interrupt at a prompt; a scenario in which commands get stuck is reported with its operation sequence.' 
+              ' Also genuine commands with unusual texts (empty, whitespace, statements with side effects, repeated): executions are counted per addressed command.'),
         design='§6 C07, §5 model E',
         note=COMMON_NOTE + 'The correspondence samples phase-synchronised schedules (the harness waits for queue quiescence); queue.Queue FIFO/thread-safety is CPython behaviour.',
         technique='Lean 4 invariant proof over label lists + differential correspondence (hand-written model) + real-child decoy runs'),
@@ -103,7 +107,8 @@ CLAIMED = {
               'Also one TaskDoneCallback shared by tasks of two threads with their own event loops: thread A parked before every bytecode of _callback while thread B registers / is called back; close() must neither return early nor hang (the model\'s labels are atomic, which is exactly what this validates).' 
               'Also callbacks raising exceptions that are not Exceptions, and the consequence named by the property — every trace that starts ends — on programs whose threads/tasks end by return, raise, cancellation, being left pending or not being joined.' 
               ' Also the union helper (ThreadTaskDoneCallback): threads registered after close()/aclose() has begun by a still-running registered task or thread — each is called back exactly once before close returns.' 
-              " Model D1t (the exit of the child's plugin context on top of the trace model D1: it waits for every other trace, afterwards nothing is numbered or started and only the main thread's trace can still end) with theorems close_waits, closed_stays, no_trace_starts_after_close, after_close_only_a_trace_end, every_started_trace_ended — the property's last sentence for every execution of the model — tied to the code by running the event streams of completed in-process runs through the compiled model with the exit placed as late as possible."),
+              " Model D1t (the exit of the child's plugin context on top of the trace model D1: it waits for every other trace, afterwards nothing is numbered or started and only the main thread's trace can still end) with theorems close_waits, closed_stays, no_trace_starts_after_close, after_close_only_a_trace_end, every_started_trace_ended — the property's last sentence for every execution of the model — tied to the code by running the event streams of completed in-process runs through the compiled model with the exit placed as late as possible." 
+              ' Also fire-and-forget tasks (no reference kept) parked on futures only they reference, with garbage collections before the loop is torn down: called back exactly once.'),
         design='§6 C18, §5 model I',
         note=COMMON_NOTE + 'GIL switch points other than the forced ones are whatever CPython produces; registrations after close() are outside the '
              'documented contract. Two defects found and fixed here: F-I1 (lost registration) and F-I2 (exit-check read order).',
@@ -137,14 +142,16 @@ CLAIMED = {
         text=('Theorems over model A: close() never raises in any reachable state; a second close() does nothing; when no run is in progress the first close() returns at once with the broker closed (every earlier subscription terminates, by C08), state closed, no child alive; while a run is in progress close() waits and, whatever else the environment does, returns as soon as the child exits — however it ends — with state closed and no child alive. Tied to /repo by exact correspondence (close issued at every point of every short serial history, from a fresh task each time, subscribers attached before and after start) and an oracle; overlapping calls under the permuting loop (oracle).' 
               'Histories include close() issued k scheduler steps after the child\'s exit (kclose, k = 0…14), i.e. anywhere between the exit of the process and the end of the finish transition.' 
               'Also: subscription iterators handed out before close() and first advanced after it; close() pending while a completion hook of a plugin raises.' 
-              " Also a subscriber that stopped reading with thousands of items published before close() from another task, before and after the child's exit."),
+              " Also a subscriber that stopped reading with thousands of items published before close() from another task, before and after the child's exit." 
+              ' Also, with a real child, the caller of run() cancelled while the child is being spawned, then close() from another task: closed, no child alive.'),
         design='§6 C03',
         note=COMMON_NOTE + 'Theorems are about serial histories (no lifecycle call issued while another is in progress), which is where the property can hold: overlapping calls interfere through transitions\' cancellation of in-flight triggers — known findings F-A2/F-A2c/F-A2d/F-A3 (open), matched by violation kind so that any other misbehaviour under overlap is still reported. transitions/apluggy/asyncio are modelled, not verified.',
         technique='Lean 4 proofs over a deterministic API-level model + generated FSM table (translator) + differential correspondence with a simulated child under a permuting event loop'),
     'C15': dict(
         text=('Theorems over model A: a child is alive exactly while the state is running; run/reset while running are refused and change nothing; an operation starts at most one child and only when none is alive; once finished is published the child has exited. Tied to /repo by exact correspondence on serial histories with the number of live simulated children sampled after every operation, and overlapping run/run, run/reset, reset/run, run/close under the permuting loop with live children sampled after every scheduler step (oracle).' 
               'Also real spawn children incl. a script whose process lingers for seconds after the script returned (non-daemon thread): no child process is alive when finished is published.' 
-              'Also: the caller of run() cancelled k scheduler steps after the request; reset() then run() from another task at exact offsets with and without a slow reset hook.'),
+              'Also: the caller of run() cancelled k scheduler steps after the request; reset() then run() from another task at exact offsets with and without a slow reset hook.' 
+              " Also third-party plugins whose run context hook (plain, tryfirst, trylast) or on_start_run / on_end_run raise: no child alive at any publication of 'finished', never two children (the on_start_run variant is the open finding F-A7)."),
         design='§6 C15',
         note=COMMON_NOTE + 'Theorems are about serial histories (no lifecycle call issued while another is in progress), which is where the property can hold: overlapping calls interfere through transitions\' cancellation of in-flight triggers — known findings F-A2/F-A2c/F-A2d/F-A3 (open), matched by violation kind so that any other misbehaviour under overlap is still reported. transitions/apluggy/asyncio are modelled, not verified.',
         technique='Lean 4 proofs over a deterministic API-level model + generated FSM table (translator) + differential correspondence with a simulated child under a permuting event loop'),
@@ -158,7 +165,8 @@ CLAIMED = {
               'class that occurred.' 
               'Also a function that returns at once while its process takes 4.5 s to exit: awaiting the handle yields only once the process has been reaped.' 
               'Also kill/terminate from another task while the handle of a lingering process is awaited, and a fresh awaiter of the handle at every event-loop iteration around the exit.' 
-              ' Also log collection with a blocking handler in the parent: when awaiting the handle yields, every record of the child has been handled and no helper task is left.'),
+              ' Also log collection with a blocking handler in the parent: when awaiting the handle yields, every record of the child has been handled and no helper task is left.' 
+              ' Also requests repeated at every event-loop turn until awaiting the handle yields — hence after the child has been reaped — by terminate, kill and (after a first deadly request) interrupt: none may raise (F-H2, fixed).'),
         design='§6 C17, §5 model H',
         note=COMMON_NOTE + 'Partial by nature: reaping, thread clean-up and what the future resolves to for each way of dying are concurrent.futures/'
              'multiprocessing behaviour (modelled in futureOf, observed by the sweep). Defect F-H1 (event loop blocked in executor shutdown) found and fixed here.',
@@ -167,21 +175,24 @@ CLAIMED = {
         text=('Theorems over model A: every operation extends the hook log by a word of the protocol automaton initialise-run · start-run · in-process events · end-run (state still running, run arguments present) · finished (state finished, arguments withdrawn), each once, for every operation except close() of a run that was initialised but never started (which calls no hook and leaves the arguments in place — the full statement is proved false on start();close() and the exact statement with the automaton state read from the model is proved instead); the whole hook log of every history is accepted; a refused request calls no hook; the run arguments are present in initialized and running and absent in created/finished. Tied to /repo by exact correspondence of the hook log seen by a plugin registered through Nextline.register (sampling Nextline.state and context.run_arg inside each hook) on all short serial histories and random long ones incl. events still in the channel at child exit and callers reacting to the state attribute, plus an oracle (regular expression per run).' 
               'Histories include a plugin whose on_end_run raises while the child exits (exitx): the run is still finished and its arguments withdrawn.' 
               'Also re-registration of a plugin between and during runs, and real spawn children ending by return, raise, os._exit(1) and kill.' 
-              " Also the caller of run() cancelled at every early scheduler step while another plugin's start-run hook is busy: the recording plugin's hook sequence must still follow the protocol once the child has exited."),
+              " Also the caller of run() cancelled at every early scheduler step while another plugin's start-run hook is busy: the recording plugin's hook sequence must still follow the protocol once the child has exited." 
+              ' Also a hook busy for seconds while the run ends or is killed: no event is delivered after end-run or finished.'),
         design='§6 C12',
         note=COMMON_NOTE + 'Theorems are about serial histories (no lifecycle call issued while another is in progress), which is where the property can hold: overlapping calls interfere through transitions\' cancellation of in-flight triggers — known finding F-A2 (open), matched by violation kind. transitions/apluggy/asyncio are modelled, not verified.',
         technique='Lean 4 proofs over a deterministic API-level model + generated FSM table (translator) + differential correspondence with a simulated child under a permuting event loop'),
     'C14': dict(
         text=("Theorems over model A: an accepted (re)initialisation publishes exactly one run number — the next one or the one the caller restarts from — and the counter moves just past it; no other operation publishes or changes it; the run arguments always equal the composer\\'s current statement and options and carry the number published last, and the child is started with exactly them; a reset takes full effect (all given options, one re-initialisation) or none (refused ⇒ state unchanged). Tied to /repo by exact correspondence on serial histories with reset carrying every subset of the four options (run_no/run_info/statement publications and the RunArg handed to the simulated child) and an oracle. "
               "Also reset ∥ run from two tasks at the scheduler offsets where the unchanged code lets one of them win cleanly, and two real runs of one object (run number of every record of the second run, incl. after reset(run_no_start_from=10))." 
-              " Also two or three Nextline objects alive in one process, started / reset / run in interleaved orders: each object's displayed script (get_source, get_source_line), statement, run info and the child's arguments are its own."),
+              " Also two or three Nextline objects alive in one process, started / reset / run in interleaved orders: each object's displayed script (get_source, get_source_line), statement, run info and the child's arguments are its own." 
+              " Also overlapping runs of two or three objects whose children use the same trace and prompt numbers: every record on every stream of an object carries that object's run number and is one of its own."),
         design='§6 C14',
         note=COMMON_NOTE + 'Theorems are about serial histories (no lifecycle call issued while another is in progress), which is where the property can hold: overlapping calls interfere through transitions\' cancellation of in-flight triggers — known finding F-A2 (open), matched by violation kind. transitions/apluggy/asyncio are modelled, not verified.',
         technique='Lean 4 proofs over a deterministic API-level model + generated FSM table (translator) + differential correspondence with a simulated child under a permuting event loop'),
     'C16': dict(
         text=("Theorems over model A: Continue plugins are registered only while running, at most one, and the flag is true iff one is registered; a refused non-interactive request leaves no plugin behind and the flag false unless a non-interactive run is in flight; after an accepted plain run() no command reaches the child on any prompt for the rest of that run, whatever happened before (refused or accepted requests in any order). Tied to /repo by exact correspondence (continuous_enabled after every operation, the flag\\'s publications, commands reaching the simulated child\\'s queue when it emits prompts) on all short serial histories and random long ones, and an oracle. "
               "Also: a plugin hook raising during a non-interactive run; a non-interactive run requested while start() is still in flight." 
-              ' Also the requester of a non-interactive run cancelled at every early scheduler step: if the run it asked for is in flight the flag is on and its prompts are answered until it finishes, otherwise the flag is off.'),
+              ' Also the requester of a non-interactive run cancelled at every early scheduler step: if the run it asked for is in flight the flag is on and its prompts are answered until it finishes, otherwise the flag is off.' 
+              " Also a user plugin registered before the request whose on_finished / on_end_run / on_change_state hook raises or is slow: the flag is off a few loop turns after 'finished', and the next plain run is not auto-answered."),
         design='§6 C16',
         note=COMMON_NOTE + 'Theorems are about serial histories (no lifecycle call issued while another is in progress), which is where the property can hold: overlapping calls interfere through transitions\' cancellation of in-flight triggers — known finding F-A2 (open), matched by violation kind. transitions/apluggy/asyncio are modelled, not verified.',
         technique='Lean 4 proofs over a deterministic API-level model + generated FSM table (translator) + differential correspondence with a simulated child under a permuting event loop'),
@@ -196,7 +207,8 @@ CLAIMED = {
               'each case in its own sub-process with a wall-clock bound, observed (states, run_info, result, exception, waiter released, exit code) '
               'against the prediction.' 
               'Real children also: a script that raises at the end of a long traced loop (thousands of events in flight), threads that outlive the main script, and a second run of the same object after kill/terminate.' 
-              ' Also a task waiting for the run (run_session, run_continue_and_wait) cancelled while the script is still going: the run goes on and reports its own result, another waiter returns at its end; scripts whose threads reach script code only after the script has ended (timer threads; F-G8, fixed) and scripts leaving an idle executor behind (open finding F-G9).'),
+              ' Also a task waiting for the run (run_session, run_continue_and_wait) cancelled while the script is still going: the run goes on and reports its own result, another waiter returns at its end; scripts whose threads reach script code only after the script has ended (timer threads; F-G8, fixed) and scripts leaving an idle executor behind (open finding F-G9).' 
+              ' Also SIGINT during the teardown wait for a thread that outlives the script (non-interactive: must finish; interactive: open finding F-G10).'),
         design='§6 C02, §5 models A/G',
         note=COMMON_NOTE + 'Partial by nature below the FSM: pipes, signals and process reaping are CPython/OS behaviour, covered only by the '
              'real-process sweep. Premise of the liveness half: the child eventually exits. Open known findings matched by mechanism/signature: F-G3 '
@@ -218,7 +230,8 @@ CLAIMED = {
               'oracle written from the statement (all-step: prompts = executed lines in order; all-next: the bottom frame only, all of its lines; '
               'all-continue: one prompt; never in lambdas / skipped modules / other threads) and the filter alone against the real pluggy hook.' 
               'Also a user module whose function is first called by a thread and then by the stepping main thread (module tracing on).' 
-              " Also the same programs with .pdbrc files in the child's home and working directory; model D2 includes the filter that rejects everything once the run's context has exited (theorems closed_rejects_everything, closed_leaves_filter_state)."),
+              " Also the same programs with .pdbrc files in the child's home and working directory; model D2 includes the filter that rejects everything once the run's context has exited (theorems closed_rejects_everything, closed_leaves_filter_state)." 
+              ' Also threads that outlive the script and call functions of the script after its last statement (prompted exactly as the model predicts).'),
         design='§6 C05, App. B, §0.6',
         note=COMMON_NOTE + 'The model is of CPython 3.12.1\'s bdb/pdb: hypotheses botframe known and not a generator frame are explicit in continue_once / '
              'next_not_in_callees (bdb\'s StopIteration/GeneratorExit rule). Not modelled: breakpoints, skip patterns of Pdb, quit/up/down/jump; '
@@ -237,7 +250,8 @@ CLAIMED = {
               '3 tasks (nested, sequential, executor threads), and an oracle using code locations as ground truth for the producing entity, incl. a '
               'responder that withholds one thread\'s answer until nothing else moves.' 
               'Also a stress family (3–6 threads inside the trace machinery at the same time, 1 µs thread-switch interval) and a prompt-text oracle: every location line of a prompt\'s text names a function that trace executes.' 
-              'Also withheld prompts with module tracing on (at quiescence no other trace may be stuck inside a trace call), task bodies writing partial lines across a suspension, tasks/threads created one after the other (addresses reused), cancelled tasks, threads that are not joined.'),
+              'Also withheld prompts with module tracing on (at quiescence no other trace may be stuck inside a trace call), task bodies writing partial lines across a suspension, tasks/threads created one after the other (addresses reused), cancelled tasks, threads that are not joined.' 
+              " Also interrupt() at the main thread's open prompt with other threads still at work: their prompts and output are those of the run without the interrupt."),
         design='§6 C06, §5 model D1',
         note=COMMON_NOTE + 'Not exhibited by the model: GIL/OS scheduling and blocking inside multiprocessing.Queue.put — covered only by the runs.',
         technique='Lean 4 invariant/frame proofs over an LTS + trace-acceptance correspondence of real event streams + location-based oracle'),
@@ -252,7 +266,8 @@ CLAIMED = {
               'nesting, same numbers) on streams emitted by the real trace machinery in-process on generated programs × policies (step/next/continue/return/until/'
               'mixes/decoys/non-resuming commands) and by real spawn children with SIGINT at an open prompt (child-side probe), plus a stack-checker oracle.' 
               'Also the stress family (threads making trace calls at the same time under a 1 µs thread-switch interval): numbers stay unique.' 
-              'Also tasks/threads created one after the other (addresses reused), cancelled and pending tasks, threads that are not joined.'),
+              'Also tasks/threads created one after the other (addresses reused), cancelled and pending tasks, threads that are not joined.' 
+              " Also scripts whose last write has no newline (print(end=''), sys.stdout.write, carriage-return progress output), threads joined or not."),
         design='§6 C09, §5 model D1',
         note=COMMON_NOTE + 'That CPython invokes the trace function as the model\'s labels say (no nested trace calls within a trace) is assumed and exercised.',
         technique='Lean 4 simulation proof (emitter LTS refines the consumer grammar) + trace-acceptance correspondence of real event streams'),
@@ -266,7 +281,8 @@ CLAIMED = {
               'permuting loop (bursts, slow plugins, exit with backlog, kills keeping 0..all pending items) and by real children printing bursts right '
               'before exiting (child-side probe log vs recording plugin).' 
               'Also a real child that has emitted its whole burst and returned, a slow plugin, and interrupt() while most of the burst is still in the channel: nothing may be lost.' 
-              'Also well-formed streams of all event kinds with slow hooks (the completion order of the hooks is compared) and text objects of the script\'s own classes.'),
+              'Also well-formed streams of all event kinds with slow hooks (the completion order of the hooks is compared) and text objects of the script\'s own classes.' 
+              ' Also a hook busy for seconds on one event while the script ends / the child is killed with events queued behind it: everything emitted is still delivered, in order, before end-run.'),
         design='§6 C10, §5 model F',
         note=COMMON_NOTE + 'Not exhibited: byte-level truncation of a pickled event; a child dying while holding the queue write lock (open finding F-G3).',
         technique='Lean 4 invariant proof over an LTS + trace-acceptance correspondence under a permuting event loop + real-process bursts'),
